@@ -7,6 +7,7 @@ from vlib import *
 PROFILE_SPEC = {
     'dec-whole': 'TraceDec', 'dec-cutsets': 'TraceDec', 'dec-random': 'TraceDec', 'dec-bom': 'TraceDec',
     'dec-replay': 'TraceDec',
+    'enc-sweep': 'TraceEnc', 'enc-pairs': 'TraceEnc', 'enc-cutsets': 'TraceEnc', 'enc-random': 'TraceEnc', 'enc-replay': 'TraceEnc',
 }
 
 
@@ -48,7 +49,7 @@ def dev(profile, spec, extra, seed, tier):
 
 
 def replay(path):
-    """re-execute a replay file (a recorded history) on the real code built from /repo's working tree and
+    """re-drive the caller plan of a recorded history on the real code built from /repo's working tree and
     validate the fresh trace with the trace spec"""
     lines = [l for l in open(path).read().split('\n') if l.strip()]
     meta = None
@@ -56,11 +57,18 @@ def replay(path):
         meta = json.loads(lines[-1])
         lines = lines[:-1]
     first = json.loads(lines[0])
-    kind = {'N': 'dec', 'NE': 'enc'}.get(first.get('ev'), 'dec')
+    plan = first if first.get('ev') == 'PLAN' else history_to_plan(lines)
+    if plan is None:
+        # aggregate events (sweeps) are re-recorded by re-running the owning check
+        print('this replay file holds an aggregate event; re-run the owning check to reproduce it')
+        for l in lines[:3]:
+            print('   ', l[:300])
+        return 2
+    kind = plan['kind']
     outdir = RUN + '/replay/_tmp'
     clean_dir(outdir)
-    src = outdir + '/in.ndjson'
-    open(src, 'w').write('\n'.join(lines) + '\n')
+    src = outdir + '/plan.ndjson'
+    open(src, 'w').write(json.dumps(plan) + '\n')
     binp = build_harness('default')
     st = run_profile(binp, kind + '-replay', outdir, 1, 'quick', shards=1, extra=['--in', src])
     r = validate_trace(PROFILE_SPEC[kind + '-replay'], st['files'][0])
